@@ -79,7 +79,7 @@ PROPS["C05"] = {
 PROPS["C01"] = {
     "technique": "reference-model monitor: pointwise 1440-minute model of the documented rule semantics vs schedule_at/state on generated expressions x boundary-biased days",
     "level_text": "Every generated (expression, holiday context, day) is evaluated by the library and by an independent pointwise model (direct calendar arithmetic, minute array, no range lists or hints) and compared minute by minute, on days derived from the expression's own selectors +-2, random days and contiguous sweeps; live Schedule structure is asserted through the verif_ranges hook. Exploration with measured selector-kind coverage; shapes no document settles are counted as abstentions, never judged.",
-    "rule": "seeded ASTs (<= 4 rules/3 entries/3 spans quick; 6/4/4 thorough; each selector kind alone in ~30% of rotating shards) rendered to one of their spellings x holiday context (none / 6 synthetic calendars / embedded countries) x 64 targeted + 48 random days (thorough: 300 + 200 + 400..800-day sweep; single-selector expressions swept day by day 1900..2100). Oracle: model_day() of harness/src/model.rs. Non-trivial = expression has a selector other than 24/7 (cases_with_varying_schedule counts those whose model array varies over the probed days); distinct by hash of (AST, context).",
+    "rule": "seeded ASTs (<= 4 rules/3 entries/3 spans quick; 6/4/4 thorough; each selector kind alone in ~30% of rotating shards) rendered to one of their spellings x holiday context (none / 6 synthetic calendars / embedded countries) x 64 targeted + 48 random days (thorough: 300 + 200 + 400..800-day sweep; single-selector expressions swept day by day 1900..2100); plus, in every tier, an EXHAUSTIVE sweep over every year 1900..9999 of nine year-dependent expressions (easter, easter with offsets, Feb 29, Feb 28-Mar 1 past midnight, week 53, weeks 01/52, stepped weeks, nth-from-end and 5th weekdays with offsets) on their boundary days (calendar_sweep_days). Oracle: model_day() of harness/src/model.rs. Non-trivial = expression has a selector other than 24/7 (cases_with_varying_schedule counts those whose model array varies over the probed days); distinct by hash of (AST, context).",
     "assumptions": ["chrono's proleptic Gregorian calendar and ISO week numbers", "the harness's selector arithmetic (model.rs), cross-checked by the seeded mutants and by staying silent on the repaired tree", "abstention shapes listed in DESIGN.md section 5 are not judged"],
 }
 
@@ -99,7 +99,7 @@ PROPS["C03"] = {
 
 PROPS["C08"] = {
     "technique": "invariant monitor at the public API around both bounds of the supported date range, reusing the C02/C03 oracles",
-    "level_text": "Expressions whose selectors straddle 1900 and 9999 are evaluated at instants just before/after both bounds and far outside them (years -262000..262000): state must be closed outside, no interval may start before the requested start or end after min(requested end, 10000-01-01), outside intervals are closed without comments, next_change never returns an instant at or beyond 10000-01-01 and from before 1900 equals the first non-closed instant from 1900-01-01T00:00 found by a pointwise scan. Exploration.",
+    "level_text": "Expressions whose selectors straddle 1900 and 9999 are evaluated at instants just before/after both bounds and far outside them (years -262000..262000): state must be closed outside, no interval may start before the requested start or end after min(requested end, 10000-01-01), outside intervals are closed without comments, next_change never returns an instant at or beyond 10000-01-01, the same containment holds when the context carries an interval-size bound (containment only; the approximation is C16's), and next_change from before 1900 equals the first non-closed instant from 1900-01-01T00:00 found by a pointwise scan. Exploration.",
     "rule": "seeded ASTs with years/dates biased to 1900, 1901, 9998, 9999 and '+' forms, a third biased to long intervals, holiday calendars with dates outside the range x 2 instants each from 8 classes (just before/after 1900 and 10000, far before/after, the year before 1900, the last year) x a window of 1..30 days from the instant. Non-trivial = expression with a selector; distinct by hash of (AST, context, instant).",
     "assumptions": ["schedule_at is the pointwise truth inside the range (C01)", "state at chrono's very last representable minute is outside the property's stated range and is not probed"],
 }
